@@ -145,3 +145,14 @@ Proof. exact key_part_here. Qed.
 
 Theorem C10_case_folded_key_refuted : key_part_eq_form false [Byte.x41; Byte.x62] [Byte.x61; Byte.x42] = true.
 Proof. exact key_part_folded_merges. Qed.
+
+(* "a usage stops receiving once its guard is dropped" - under every schedule: the drop waits for the dialog layer's lock; with try_lock a
+   guard dropped while another thread is inside the layer would leave its usage registered *)
+Theorem C10_guard_drop_guard : usage_guard_drop_waits = true.
+Proof. reflexivity. Qed.
+
+Theorem C10_guard_drop_removes_under_contention : usage_guard_drop_waits = true -> forall lock_held_elsewhere, guard_drop_removes lock_held_elsewhere = true.
+Proof. exact guard_drop_here. Qed.
+
+Theorem C10_guard_drop_try_lock_refuted : guard_drop_removes_form false true = false.
+Proof. exact guard_drop_try_lock_refuted. Qed.
